@@ -82,7 +82,31 @@ impl<Read: ReadHalf> ReadConnection<Read> {
         enum ReplyMsg<ReplyParams, ReplyError> {
             Varlink(varlink_service::Error),
             Error(ReplyError),
-            Reply(Reply<ReplyParams>),
+            Reply(SuccessReply<ReplyParams>),
+        }
+
+        // A successful reply. Unlike `Reply`, it refuses to deserialize from a message that carries
+        // an `error` field, so that an error that neither of the above variants recognise is never
+        // mistaken for a success.
+        #[derive(Debug, Deserialize)]
+        struct SuccessReply<ReplyParams> {
+            parameters: Option<ReplyParams>,
+            continues: Option<bool>,
+            #[serde(default)]
+            #[allow(unused)]
+            error: Option<NoError>,
+        }
+
+        #[derive(Debug)]
+        enum NoError {}
+
+        impl<'de> Deserialize<'de> for NoError {
+            fn deserialize<D>(_: D) -> core::result::Result<Self, D::Error>
+            where
+                D: serde::Deserializer<'de>,
+            {
+                Err(serde::de::Error::custom("reply is an error"))
+            }
         }
 
         match self
@@ -94,7 +118,7 @@ impl<Read: ReadHalf> ReadConnection<Read> {
             ReplyMsg::Error(e) => Ok(Err(e)),
             ReplyMsg::Reply(reply) => {
                 // It's a success response.
-                Ok(Ok(reply))
+                Ok(Ok(Reply::new(reply.parameters).set_continues(reply.continues)))
             }
         }
     }
